@@ -431,6 +431,9 @@ PPL::Grid::relation_with(const Congruence& cg) const {
   PPL_DIRTY_TEMP_COEFFICIENT(sp);
 
   bool known_to_intersect = false;
+  // Whether a parameter not satisfying cg was met before any point
+  // (the generators need not be minimized: the point need not come first).
+  bool parameter_failed_before_points = false;
 
   for (Grid_Generator_System::const_iterator i = gen_sys.begin(),
          i_end = gen_sys.end(); i != i_end; ++i) {
@@ -446,6 +449,10 @@ PPL::Grid::relation_with(const Congruence& cg) const {
       if (sp == 0) {
         // The point satisfies the congruence.
         if (point_sp == 0) {
+          if (parameter_failed_before_points) {
+            // Adding that parameter gives a point not satisfying cg.
+            return Poly_Con_Relation::strictly_intersects();
+          }
           // Any previous points satisfied the congruence.
           known_to_intersect = true;
         }
@@ -461,6 +468,12 @@ PPL::Grid::relation_with(const Congruence& cg) const {
           // Assign `sp' to `point_sp' as `sp' is the scalar product
           // of cg and a point g and is non-zero.
           point_sp = sp;
+          // The parameters met before this point (the generators need
+          // not be minimized, so the point need not come first) may
+          // already allow for reaching a point that satisfies cg.
+          if (div != 0 && point_sp % div == 0) {
+            return Poly_Con_Relation::strictly_intersects();
+          }
         }
         else {
           // A previously considered point p failed to satisfy cg such that
@@ -498,6 +511,10 @@ PPL::Grid::relation_with(const Congruence& cg) const {
       }
       // Find the GCD between sp and the previous GCD.
       gcd_assign(div, div, sp);
+      if (point_sp == 0) {
+        // No point was met yet.
+        parameter_failed_before_points = true;
+      }
       if (point_sp != 0) {
         // At least one of any previously encountered points fails to
         // satisfy cg.
